@@ -466,48 +466,31 @@ func noAppendToParameterSlice(c *core.Ctx, rule string) {
 		return
 	}
 	n := 0
+	var ops []*ssa.Function
+	seen := map[*ssa.Function]bool{}
 	for _, fn := range c.P.ModuleFunctions("ociauth") {
-		if !strings.HasSuffix(c.P.Pos(fn.Pos()), "") || fn.Signature.Recv() == nil && !mentionsScope(fn) {
+		if fn.Signature.Recv() == nil && !mentionsScope(fn) {
 			continue
 		}
 		if fn.Signature.Recv() != nil && structName(fn.Signature.Recv().Type()) != "Scope" && !mentionsScope(fn) {
 			continue
 		}
+		// the operation and the private helpers it reaches
+		for _, h := range withHelpers(fn) {
+			if !seen[h] {
+				seen[h] = true
+				ops = append(ops, h)
+			}
+		}
+	}
+	for _, fn := range ops {
 		for _, ci := range facts.CallsIn(fn) {
 			bi, ok := ci.Common().Value.(*ssa.Builtin)
 			if !ok || bi.Name() != "append" || len(ci.Common().Args) == 0 {
 				continue
 			}
 			n++
-			first := facts.Resolve(ci.Common().Args[0])
-			// strip re-slicing
-			for d := 0; d < 3; d++ {
-				if sl, isSl := first.(*ssa.Slice); isSl {
-					first = facts.Resolve(sl.X)
-				}
-			}
-			base, fld, isF := facts.FieldOf(first)
-			if !isF {
-				continue
-			}
-			if structName(base.Type()) != "Scope" {
-				continue
-			}
-			// the Scope the slice belongs to: a parameter (or receiver) of the function?
-			b := facts.Resolve(base)
-			if al, isAl := b.(*ssa.Alloc); isAl {
-				if sts := facts.StoresTo(al); len(sts) == 1 {
-					b = facts.Resolve(sts[0].Val)
-				}
-			}
-			if u, isU := b.(*ssa.UnOp); isU {
-				if al, isAl := u.X.(*ssa.Alloc); isAl {
-					if sts := facts.StoresTo(al); len(sts) == 1 {
-						b = facts.Resolve(sts[0].Val)
-					}
-				}
-			}
-			if _, isParam := b.(*ssa.Parameter); isParam {
+			if fld, bad := sliceOfArgumentScope(ci.Common().Args[0], 3); bad {
 				c.Fail(rule, fnName(outermost(fn))+"/append-to-argument/"+fld, ci.Pos(), "append is applied to the "+fld+" slice of an argument scope: if that slice has spare capacity the result shares its backing array with the argument, and a second operation on the same argument rewrites the first result (two different unions compare Equal)")
 			}
 		}
@@ -517,6 +500,90 @@ func noAppendToParameterSlice(c *core.Ctx, rule string) {
 	} else {
 		c.OK(rule, "scope-ops/append-targets", 0, sprintf("%d append calls in the scope operations examined", n))
 	}
+}
+
+// sliceOfArgumentScope: v (possibly re-sliced) is a slice field of a Scope
+// that is a parameter or receiver of its function, or a slice parameter of a
+// private helper that some call site binds to such a field.
+func sliceOfArgumentScope(v ssa.Value, depth int) (string, bool) {
+	// the arrays v may be backed by: through re-slicing, loop phis and earlier appends
+	var roots []ssa.Value
+	seen := map[ssa.Value]bool{}
+	var walk func(x ssa.Value)
+	walk = func(x ssa.Value) {
+		x = facts.Resolve(x)
+		if seen[x] || len(seen) > 40 {
+			return
+		}
+		seen[x] = true
+		switch y := x.(type) {
+		case *ssa.Slice:
+			walk(y.X)
+		case *ssa.Phi:
+			for _, e := range y.Edges {
+				walk(e)
+			}
+		case *ssa.Call:
+			if bi, ok := y.Call.Value.(*ssa.Builtin); ok && bi.Name() == "append" && len(y.Call.Args) > 0 {
+				walk(y.Call.Args[0])
+				return
+			}
+			roots = append(roots, x)
+		default:
+			roots = append(roots, x)
+		}
+	}
+	walk(v)
+	for _, r := range roots {
+		if fld, bad := rootOfArgumentScope(r, depth); bad {
+			return fld, true
+		}
+	}
+	return "", false
+}
+
+func rootOfArgumentScope(first ssa.Value, depth int) (string, bool) {
+	if p, isP := facts.ResolveFree(first).(*ssa.Parameter); isP && depth > 0 {
+		if _, isSlice := p.Type().Underlying().(*types.Slice); !isSlice {
+			return "", false
+		}
+		h := p.Parent()
+		pi := -1
+		for i, q := range h.Params {
+			if q == p {
+				pi = i
+			}
+		}
+		for _, s := range privateCallSites(h) {
+			if pi < 0 || pi >= len(s.Common().Args) {
+				continue
+			}
+			if fld, bad := sliceOfArgumentScope(s.Common().Args[pi], depth-1); bad {
+				return fld, true
+			}
+		}
+		return "", false
+	}
+	base, fld, isF := facts.FieldOf(first)
+	if !isF || structName(base.Type()) != "Scope" {
+		return "", false
+	}
+	// the Scope the slice belongs to: a parameter (or receiver) of the function?
+	b := facts.Resolve(base)
+	if al, isAl := b.(*ssa.Alloc); isAl {
+		if sts := facts.StoresTo(al); len(sts) == 1 {
+			b = facts.Resolve(sts[0].Val)
+		}
+	}
+	if u, isU := b.(*ssa.UnOp); isU {
+		if al, isAl := u.X.(*ssa.Alloc); isAl {
+			if sts := facts.StoresTo(al); len(sts) == 1 {
+				b = facts.Resolve(sts[0].Val)
+			}
+		}
+	}
+	_, isParam := b.(*ssa.Parameter)
+	return fld, isParam
 }
 
 func mentionsScope(fn *ssa.Function) bool {
